@@ -187,4 +187,11 @@ theorem C14_source_skeletons_lfsc :
     Gen.Skel.fn_readResponseError = Expected.Skel.fn_readResponseError :=
   ⟨rfl, rfl, rfl, rfl, rfl⟩
 
+/-- further regenerated control skeletons (fifth round of seeded changes: code no earlier change had
+    touched): Store_monitorPrimaryBackup, Store_SyncBackup -/
+theorem C14_source_skeletons_5 :
+    Gen.Skel.Store_monitorPrimaryBackup = Expected.Skel.Store_monitorPrimaryBackup ∧
+    Gen.Skel.Store_SyncBackup = Expected.Skel.Store_SyncBackup :=
+  ⟨rfl, rfl⟩
+
 end LiteFSVerif.C14
